@@ -158,3 +158,25 @@ def check(model, rep):
     rep.extra['certificates'] = {n: {'verdict': r['verdict'], 'port_line': r.get('port_line'), 'ref_line': r.get('ref_line'),
                                      'token_identical': r.get('token_identical', False), 'detail': r.get('detail', '')[:300]}
                                  for n, r in sorted(results.items())}
+
+
+def closure_obligations(model, rep, rule, callers, what):
+    """E6 verdicts scoped to a property: every reference-shared primitive in the transitive callee closure of the kernels
+    that `callers` (FuncInfos of the property's anchor code) use must equal the pinned reference."""
+    roots = tv.kernel_roots_called_from(model, callers)
+    closure = tv.port_closure(model, roots)
+    results, ref, port = tv.compare_all(model)
+    shared = sorted(n for n in closure if n in results)
+    rep.rule(rule, 'every Modern-Robotics primitive that %s depends on (transitive callee closure) has the normal form of the pinned reference' % what)
+    pm = model.module(PORT)
+    for name in shared:
+        r = results[name]
+        fi = pm.funcs.get(name)
+        if r['verdict'] == 'UNCOVERED':
+            rep.unresolved_item(rule, fi.where, 'outside the normaliser: ' + r['detail'])
+            continue
+        ok = r['verdict'] == 'EQUIVALENT'
+        rep.ob(rule, fi, name + ' == reference', ok,
+               ('%s, which %s relies on, differs from modern_robotics.%s: %s' % (name, what, name, r['detail'][:300])) if not ok else 'equal normal forms')
+    rep.count('%s: primitives in the callee closure shared with the reference' % rule, len(shared))
+    return shared
